@@ -41,11 +41,16 @@ theorem append_store (h : Head) (a : App) (key : String) (x : Sample) (inv : Boo
   repeat' split
   all_goals simp [mat_store, ensure_get]
 
-theorem appendST_store (h : Head) (a : App) (key : String) (t st : Int) (z : Sample) (n : String) :
-    (App.appendST h a key t st z).1.store.get n = h.store.get n := by
-  simp only [App.appendST]
+theorem appendSTG_store (fixed : Bool) (h : Head) (a : App) (key : String) (t st : Int) (z : Sample)
+    (n : String) :
+    (App.appendSTG fixed h a key t st z).1.store.get n = h.store.get n := by
+  simp only [App.appendSTG]
   repeat' split
   all_goals simp [mat_store, ensure_get]
+
+theorem appendST_store (h : Head) (a : App) (key : String) (t st : Int) (z : Sample) (n : String) :
+    (App.appendST h a key t st z).1.store.get n = h.store.get n :=
+  appendSTG_store _ h a key t st z n
 
 theorem appendEx_store (h : Head) (a : App) (ring : Exemplars.Ring) (key : String) (b1 b2 : Bool) (e : ExIn)
     (lbl : String) (n : String) :
